@@ -982,8 +982,9 @@ def signature(case, viol, prop):
 def evidence_info(prop):
     rule = {
         'C03': 'each run = one seeded archive configuration (backend x encoding x cached x 0-2 siblings x '
-               'listing order x key/value pool) driven by a seeded sequence of 4-70 mapping operations, clock '
-               'advances and re-opens; after every operation the result/exception and the complete contents, '
+               'listing order x key/value pool; 3.5% of runs add values above one MiB, 6% keys that stress the '
+               'key-to-name mapping, 30% read the complete contents back only every few steps) driven by a seeded '
+               'sequence of 4-70 mapping operations, clock advances and re-opens; after every operation the result/exception and the complete contents, '
                'len and membership of the target and of every sibling are compared with a plain dict. '
                'distinct = distinct (backend, sibling count, sequence of (op kind, outcome class, model size)); '
                'non-trivial = at least two mapping operations were compared',
